@@ -134,10 +134,10 @@ func c22check(maxInt, maxFrac, maxExp int) {
 // H_C22_int: integer fields decode JSON number literals exactly whatever their notation
 // (plain, fraction, exponent) and reject non-integral or out-of-range values.
 //
-//verif:props=C22 bounds=sign;<=2-integer-digits;<=2-fraction-digits;exponent-in{-3..3,17..22}(quick);<=5-int/3-frac/exp--25..25(thorough);all-digits-symbolic solver=cvc5-int timeout=30000 maxsteps=4000000 deadline=1500
+//verif:props=C22 bounds=sign;<=2-integer-digits;<=2-fraction-digits;exponent-in{-3..3,17..22}(quick);<=3-int/2-frac/exp--21..21(thorough);all-digits-symbolic solver=cvc5-int timeout=30000 maxsteps=4000000 deadline=1500
 func H_C22_int() {
 	if nd.Thorough() {
-		c22check(5, 3, 25)
+		c22check(3, 2, 21)
 	} else {
 		c22check(2, 2, 0)
 	}
